@@ -276,6 +276,7 @@ type gen struct {
 	idf  otto.Value
 	sunk otto.Value
 	seq  seqState
+	vmP  *otto.Otto // a runtime whose built-in prototypes carry enumerable data
 	reop int
 	ren  int64
 }
@@ -584,7 +585,7 @@ func (g *gen) jsNumBits(src string) uint64 {
 	return Dbits(f)
 }
 
-var pathNames = []string{"Otto.Set", "named type", "pointer", "Otto.ToValue", "package ToValue", "Object.Set/Get", "Value.Call identity", "struct field", "slice element", "map value"}
+var pathNames = []string{"Otto.Set", "named type", "pointer", "Otto.ToValue", "package ToValue", "Object.Set/Get", "Value.Call identity", "struct field", "slice element", "map value", "struct field of a named type", "slice element of a named type", "map value of a named type"}
 
 // bring the Go scalar into the runtime along the path; the resulting Value is also bound to the global x
 func (g *gen) inject(path int, s gscalar) (v otto.Value, ok bool, how string) {
@@ -634,6 +635,31 @@ func (g *gen) inject(path int, s gscalar) (v otto.Value, ok bool, how string) {
 		case 6:
 			var err error
 			v, err = g.idf.Call(otto.UndefinedValue(), s.plain())
+			ok = err == nil
+		case 10, 11, 12:
+			nv := reflect.ValueOf(s.named())
+			t := nv.Type()
+			var c interface{}
+			src := ""
+			switch path {
+			case 10:
+				st := reflect.New(reflect.StructOf([]reflect.StructField{{Name: "F", Type: t}, {Name: "G", Type: t}})).Elem()
+				st.Field(1).Set(nv)
+				c, src = st.Interface(), "c.G"
+			case 11:
+				sl := reflect.MakeSlice(reflect.SliceOf(t), 3, 3)
+				sl.Index(1).Set(nv)
+				c, src = sl.Interface(), "c[1]"
+			default:
+				m := reflect.MakeMap(reflect.MapOf(reflect.TypeOf(""), t))
+				m.SetMapIndex(reflect.ValueOf("k"), nv)
+				c, src = m.Interface(), "c.k"
+			}
+			if err := vm.Set("c", c); err != nil {
+				return
+			}
+			var err error
+			v, err = vm.Run(src)
 			ok = err == nil
 		case 7:
 			t := reflect.TypeOf(s.plain())
@@ -712,7 +738,7 @@ func (g *gen) scalarCases(path int, s gscalar, simple bool) {
 	}
 	lit := s.literal()
 	validText := s.kind != "string" || utf8.ValidString(s.s)
-	refl32 := s.kind == "float32" && (path == 1 || path == 2)
+	refl32 := s.kind == "float32" && (path == 1 || path == 2 || path >= 10)
 
 	// Export
 	{
@@ -838,6 +864,9 @@ func runC15(env *Env) {
 	Must(err)
 	g.installSeqCallbacks()
 	g.installReentry()
+	g.vmP = otto.New()
+	_, err = g.vmP.Run(pollutedPrelude)
+	Must(err)
 	_, err = g.vm.Run(handlePrelude)
 	Must(err)
 	Must(g.vm.Set("sink", func(call otto.FunctionCall) otto.Value {
@@ -864,6 +893,10 @@ func runC15(env *Env) {
 	g.callSeqCase(1)
 	g.callSeqCase(2)
 	g.depthHistCase(true)
+	g.specialGrid()
+	for how := 4; how <= 7; how++ {
+		g.protoObjCase(how)
+	}
 	for t := 1; t <= 3; t++ {
 		g.kindHistCase(t)
 	}
@@ -899,7 +932,9 @@ func runC15(env *Env) {
 			g.callSeqCase(0)
 			continue
 		case k < 17:
-			if r.Intn(2) == 0 {
+			if c := r.Intn(3); c == 0 {
+				g.protoObjCase(4 + r.Intn(4))
+			} else if c == 1 {
 				g.kindHistCase(0)
 			} else {
 				g.reentryCase(r.Intn(11), r.Intn(6))
@@ -920,6 +955,8 @@ func runC15(env *Env) {
 			path = 0
 		case k < 5:
 			path = 1 + r.Intn(2)
+		case k < 6:
+			path = 10 + r.Intn(3)
 		default:
 			path = 3 + r.Intn(7)
 		}
@@ -1324,6 +1361,8 @@ func (g *gen) exportOb(via int, src string) (string, string) {
 		switch via {
 		case 0, 1:
 			v, err = g.vm.Run(src)
+		case 4, 5:
+			v, err = g.vmP.Run(src)
 		case 2:
 			if _, err = g.vm.Run("exported = " + src); err == nil {
 				v, err = g.vm.Get("exported")
@@ -1353,12 +1392,12 @@ func (g *gen) exportOb(via int, src string) (string, string) {
 	return "(OVal " + gvOf(x) + ")", fmt.Sprintf("%#v", x)
 }
 
-var viaNames = []string{"Run", "JSON.parse", "global + Otto.Get", "argument of a Go function"}
+var viaNames = []string{"Run", "JSON.parse", "global + Otto.Get", "argument of a Go function", "Run under polluted prototypes", "JSON.parse under polluted prototypes"}
 
 func (g *gen) treeCase(n *jnode, via int) {
 	src := "(" + n.js() + ")"
 	allFloat := false
-	if via == 1 {
+	if via == 1 || via == 5 {
 		src = "JSON.parse(" + jsStrLit(n.json()) + ")"
 		allFloat = true
 	}
@@ -1381,9 +1420,9 @@ func (g *gen) randomTreeCase() {
 	default:
 		n = g.tree(r.Intn(4) + 1)
 	}
-	via := Pick(r, []int{0, 0, 0, 2, 3})
+	via := Pick(r, []int{0, 0, 0, 2, 3, 4})
 	if n.jsonLike() && r.Intn(4) == 0 {
-		via = 1
+		via = Pick(r, []int{1, 1, 5})
 	}
 	g.treeCase(n, via)
 }
@@ -2845,4 +2884,134 @@ func (g *gen) reentryCase(op, frame int) {
 	}
 	g.env.Add(fmt.Sprintf("CReentry %d %d %d %s %s %s", op, frame, n, obStr(ref), obStr(reent), obStr(local)),
 		fmt.Sprintf("re-entrant %s with n=%d from a native callback under %s: reference %q, re-entrant %q, the frame's own gs afterwards %q", reopNames[op], n, frameCall(""), ref, reent, local), "reentry", true)
+}
+
+// ====================== pinned grid: special values of every kind on every route that keeps the kind ======================
+
+func (g *gen) specialGrid() {
+	reflPaths := []int{1, 2, 10, 11, 12}
+	nz32 := float32(math.Copysign(0, -1))
+	f32s := []struct {
+		v      float32
+		simple bool
+	}{{float32(math.NaN()), true}, {0, true}, {nz32, true}, {float32(math.Inf(1)), true}, {float32(math.Inf(-1)), true}, {1, true}, {-1, true}, {0.5, true},
+		{math.SmallestNonzeroFloat32, false}, {math.MaxFloat32, false}}
+	for _, f := range f32s {
+		for _, p := range reflPaths {
+			g.scalarCases(p, gscalar{kind: "float32", f32: f.v}, f.simple)
+		}
+	}
+	k := 0
+	next := func() int { k++; return reflPaths[k%len(reflPaths)] }
+	for _, f := range []float64{math.NaN(), 0, math.Copysign(0, -1), math.Inf(1), math.Inf(-1), math.SmallestNonzeroFloat64, math.MaxFloat64, -1} {
+		g.scalarCases(next(), gscalar{kind: "float64", f64: f}, true)
+	}
+	for _, kind := range intKinds {
+		w := widthOf(kind)
+		if isSigned(kind) {
+			lo := int64(-1) << (w - 1)
+			for _, v := range []int64{0, lo, -(lo + 1)} {
+				g.scalarCases(next(), gscalar{kind: kind, i: v}, true)
+			}
+		} else {
+			hi := uint64(math.MaxUint64)
+			if w < 64 {
+				hi = uint64(1)<<w - 1
+			}
+			for _, v := range []uint64{0, hi} {
+				g.scalarCases(next(), gscalar{kind: kind, u: v}, true)
+			}
+		}
+	}
+	for _, s := range []gscalar{{kind: "bool", b: false}, {kind: "bool", b: true}, {kind: "string", s: ""}, {kind: "string", s: "0"}, {kind: "string", s: "NaN"}, {kind: "string", s: " "}} {
+		g.scalarCases(next(), s, true)
+	}
+}
+
+// ====================== objects whose prototype chain carries enumerable data ======================
+
+const pollutedPrelude = `
+Object.prototype.tag = "polyfill";
+Object.prototype.a = "inherited a";
+Object.prototype.count = 1;
+Array.prototype.extra = "array extra";
+function Rec() {}
+Rec.prototype.dflt = 5;
+Rec.prototype.key = "proto key";
+Rec.prototype.b = [1, 2];
+Rec.prototype.z = { nested: true };
+function build(how, depth, own) {
+	var o;
+	if (how === 6) { o = new Rec() }
+	else {
+		var p = { a: "chain a", c: 3, key: "chain key", "10": "chain ten", list: [1] };
+		for (var i = 1; i < depth; i++) { p = Object.create(p); p["level" + i] = i; p.b = "level b" }
+		o = Object.create(p);
+	}
+	for (var j = 0; j < own.length; j++) o[own[j][0]] = own[j][1];
+	return o;
+}
+`
+
+func (g *gen) protoObjCase(how int) {
+	r := g.env.Rng
+	vm := g.vmP
+	ks := g.keys(r.Intn(5))
+	o := &jnode{t: "obj", keys: ks}
+	for range ks {
+		o.elems = append(o.elems, g.tree(r.Intn(3)))
+	}
+	allFloat := false
+	var src string
+	switch how {
+	case 4:
+		src = "(" + o.js() + ")"
+	case 5:
+		if !o.jsonLike() {
+			how, src = 4, "("+o.js()+")"
+		} else {
+			src, allFloat = "JSON.parse("+jsStrLit(o.json())+")", true
+		}
+	default:
+		pairs := make([]string, len(ks))
+		for i, k := range ks {
+			pairs[i] = "[" + jsStrLit(k) + ", " + o.elems[i].js() + "]"
+		}
+		src = fmt.Sprintf("build(%d, %d, [%s])", how, r.Intn(3)+1, strings.Join(pairs, ", "))
+	}
+	own := make([]string, len(ks))
+	for i, k := range ks {
+		own[i] = "(" + cbytes(k) + ", " + o.elems[i].coq(allFloat) + ")"
+	}
+	exp, keys, js, shown := "OPanic", "OPanic", "OPanic", "panic"
+	ro := RunJS(vm, "subject = "+src)
+	if ro.Panic == nil && ro.Err != nil {
+		e := fmt.Sprintf("(OErr %d)", ErrClass(ro))
+		exp, keys, js, shown = e, e, e, ro.Err.Error()
+	}
+	if ro.Panic == nil && ro.Err == nil {
+		v := ro.Val
+		var x interface{}
+		if !guard(func() { x, _ = v.Export() }) {
+			exp, shown = "(OVal "+gvOf(x)+")", fmt.Sprintf("%#v", x)
+		}
+		var kl []string
+		if !guard(func() { kl = v.Object().Keys() }) {
+			sortStrings(kl)
+			items := make([]string, len(kl))
+			for i, k := range kl {
+				items[i] = cbytes(k)
+			}
+			keys = "(OVal " + Clist(items) + ")"
+		}
+		var bs []byte
+		var err error
+		if !guard(func() { bs, err = v.MarshalJSON() }) {
+			lang := RunJS(vm, "JSON.stringify(subject)")
+			js = "(OVal " + Cbool(err == nil && lang.Err == nil && lang.Panic == nil && string(bs) == lang.Val.String()) + ")"
+			shown += fmt.Sprintf("; MarshalJSON %q / JSON.stringify %q", bs, lang.Val.String())
+		}
+	}
+	g.env.Add(fmt.Sprintf("CProtoObj %d %s %s %s %s", how, Clist(own), exp, keys, js),
+		fmt.Sprintf("object under enumerable prototype data: %s -> Export %s; Keys %s", src, shown, keys), "proto-object", true)
 }
